@@ -26,6 +26,37 @@ CHECKS["C01"] = {
     "technique": "symbolic execution of the real forward with dual numbers + polynomial normalisation + z3 nlsat (QF_NRA/QF_UFNRA)",
 }
 
+CHECKS["C06"] = {
+    "category": "other",
+    "text": "exhaustive over a grid of architectures (features x hidden x blocks x block type x mask type x context x multiplier x batch-norm/dropout, both MADE copies and the mixture-of-Gaussians MADE): the real constructors and forward passes run on taint elements; with random masks the degrees are symbolic integers and z3 (QF_LIA) decides 'no output unit depends on an input >= its feature' for every draw; structural, i.e. for all weights.",
+    "design_ref": "DESIGN.md section 6, C06",
+    "technique": "taint-domain symbolic execution of the real MADE code + z3 QF_LIA over symbolic mask degrees",
+}
+CHECKS["C07"] = {
+    "category": "other",
+    "text": "the real coupling constructors and passes run inside the explorer on a fully symbolic mask (every sign pattern is a path, mask values arbitrary reals), 2-D and image inputs, both directions: identity outputs are syntactically the input terms, the recording conditioner stub received exactly the identity features and the context, transformed outputs have zero dual parts w.r.t. other transformed inputs and (affine/additive) positive own derivative (z3).",
+    "design_ref": "DESIGN.md section 6, C07",
+    "technique": "symbolic execution with a symbolic mask (path per sign pattern), uninterpreted conditioner, dual numbers; z3 for path feasibility and monotonicity",
+}
+CHECKS["C08"] = {
+    "category": "other",
+    "text": "composite / inverse / nested wrappers over non-commuting library affine stages with symbolic parameters are compared term-wise (syntactic, else polynomial identity by z3) with the stages chained by hand; the multiscale transform is compared with a reference routing model and inverted, exhaustively over shapes, split dimensions and stage counts within the bound.",
+    "design_ref": "DESIGN.md section 6, C08",
+    "technique": "symbolic execution of the real wrappers on symbolic tensors; term identity / z3 polynomial identity against hand-chained real stages",
+}
+CHECKS["C18"] = {
+    "category": "other",
+    "text": "the real sample / sample_and_log_prob / log_prob interface of distributions and flows runs on symbolic contents (each noise draw a fresh symbol) for every (num_samples, batch_size, context rows) within the bound; shapes, the draw/context-row pairing, batched == unbatched structure and the ValueError/TypeError contract are decided on the resulting terms.",
+    "design_ref": "DESIGN.md section 6, C18",
+    "technique": "symbolic execution with stubbed random sources; exhaustive enumeration of the integer arguments, term-level pairing checks",
+}
+CHECKS["C20"] = {
+    "category": "other",
+    "text": "the real helper functions on symbolic tensors: index formulas of tile/repeat_rows/merge/split/sum_except_batch as term identities over all small shapes, searchsorted bracket (QF_NRA) and IEEE bin-index range (QF_FP, float32/float64), cbrt and logabsdet identities (QF_NRA), mask constructors over all symbolic draws, argument immutability from the engine's write log, type predicates by CrossHair.",
+    "design_ref": "DESIGN.md section 6, C20",
+    "technique": "symbolic execution + z3 (QF_NRA, QF_FP) + CrossHair on the pure-Python predicates",
+}
+
 NOT_APPLICABLE = {
     "C19": "float32-vs-float64 agreement needs QF_FP terms for chains of mul/div/sqrt/exp/log at two precisions; a 6-op representative was undecided in 60 s by z3 5.1, cvc5 1.0.3 and cvc5 1.4.0, and exp/log have no FP theory (DESIGN section 7)",
 }
